@@ -321,6 +321,10 @@ const (
 // TestC03 runs every section's units on a small worker pool (one bubble and
 // one real peer per unit), then re-runs a sample of the cases on fresh peers.
 func TestC03(t *testing.T) {
+	if p := os.Getenv("VERIF_REPLAY"); p != "" {
+		replay(t, p)
+		return
+	}
 	var units []unit
 	units = append(units, mainSectionUnits()...)
 	units = append(units, exclusionUnits()...)
@@ -381,4 +385,37 @@ func init() {
 	if os.Getenv("GOLOG_LOG_LEVEL") == "" {
 		os.Setenv("GOLOG_LOG_LEVEL", "fatal")
 	}
+}
+
+// replay re-runs the single case recorded in a replay artefact on a fresh peer.
+func replay(t *testing.T, path string) {
+	b, err := os.ReadFile(path)
+	if err != nil {
+		t.Fatal(err)
+	}
+	var art struct {
+		Key    string
+		Detail struct {
+			Case Case
+		}
+	}
+	if err := json.Unmarshal(b, &art); err != nil || art.Detail.Case.N == 0 {
+		t.Fatalf("not a C03 replay artefact: %v", err)
+	}
+	c := art.Detail.Case
+	o := rigOpts{alloc: c.Alloc, defMin: c.DefMin, defMax: c.DefMax, history: c.Variant == "history", ttlPast: c.Variant == "ttlpast", realMon: c.Variant == "realmon"}
+	R.NotExhaustive("replay of one recorded case")
+	runUnits(t, []unit{{name: "replay", opts: o, body: func(r *rig) {
+		if o.realMon {
+			r.installMetrics(c.N, c.St, c.NonNum)
+		} else {
+			r.setMetrics(c.N, c.St, c.NonNum)
+		}
+		obs := r.evaluate("replay", c)
+		vs := judge(c, obs)
+		fmt.Printf("REPLAY %s\n  case: %s\n  observed: %s\n  violated clauses: %d (recorded key: %s)\n", path, c, ev.JSON(obs), len(vs), art.Key)
+		for _, v := range vs {
+			fmt.Printf("  - %s: %s\n", v.clause, v.msg)
+		}
+	}}})
 }
